@@ -385,6 +385,8 @@ class Body:
             nm = self.local_names().get(local)
             if nm:
                 out.add("param:" + nm)
+            if local >= 2 and self.parent and self.kind != "Fn":
+                out |= self.closure_param_sources()
         nm = self.local_names().get(local)
         if nm:
             out.add("var:" + nm)
@@ -468,6 +470,48 @@ class Body:
             if rv.get("ak") == "closure":
                 # what a closure value computes from: the calls made in its body (and nested closures)
                 out |= self.facts.closure_calls(rv["adt"], self.crate)
+        return out
+
+    _cps = None
+
+    def closure_param_sources(self):
+        """closure body: what its parameters are fed with = the other arguments (receiver iterator/option) of the
+        combinator call(s) the closure is passed to in the parent body"""
+        if self._cps is not None:
+            return self._cps
+        self._cps = set()
+        out = set()
+        par = self.facts.body(self.parent, self.crate)
+        if par is not None:
+            holders = set()
+            for blk in par.blocks:
+                for st in blk["s"]:
+                    rv = st[1]
+                    if rv.get("k") == "agg" and rv.get("ak") == "closure" and rv.get("adt") == self.path and not st[0][1]:
+                        holders.add(st[0][0])
+            # copies / refs of the closure value
+            changed = True
+            while changed:
+                changed = False
+                for blk in par.blocks:
+                    for st in blk["s"]:
+                        rv = st[1]
+                        src = None
+                        if rv.get("k") in ("use", "cast") and "p" in rv["o"]:
+                            src = rv["o"]["p"][0]
+                        elif rv.get("k") == "ref":
+                            src = rv["p"][0]
+                        if src in holders and st[0][0] not in holders and not st[0][1]:
+                            holders.add(st[0][0])
+                            changed = True
+            for c in par.calls:
+                idx = [i for i, a in enumerate(c.args) if "p" in a and a["p"][0] in holders]
+                if not idx:
+                    continue
+                for i, a in enumerate(c.args):
+                    if i not in idx:
+                        out |= par.operand_sources(a)
+        self._cps = out
         return out
 
     def _is_overflow_tuple(self, local):
